@@ -26,7 +26,7 @@ use crate::{
     PeerId,
 };
 
-use ed25519_dalek::{self as ed25519, Signer as _, Verifier as _};
+use ed25519_dalek::{self as ed25519, Signer as _};
 use std::fmt;
 use zeroize::Zeroize;
 
@@ -123,7 +123,9 @@ impl PartialEq for PublicKey {
 impl PublicKey {
     /// Verify the Ed25519 signature on a message using the public key.
     pub fn verify(&self, msg: &[u8], sig: &[u8]) -> bool {
-        ed25519::Signature::try_from(sig).and_then(|s| self.0.verify(msg, &s)).is_ok()
+        // Strict verification rejects small-order public keys and `R` components, for which
+        // signatures exist that are valid for every message.
+        ed25519::Signature::try_from(sig).and_then(|s| self.0.verify_strict(msg, &s)).is_ok()
     }
 
     /// Convert the public key to a byte array in compressed form, i.e.
